@@ -171,6 +171,13 @@ def extern_C(output, position):
         output.extend(["#ifdef __cplusplus", "}", "#endif"])
 
 
+class UserCode(str):
+    """A line of code supplied by the user via a splicer.
+    It is written as is. Formatting characters (leading -, +, @, ^,
+    trailing +, tab and formfeed) are not interpreted.
+    """
+
+
 class WrapperMixin(object):
     """Methods common to all wrapping classes.
     """
@@ -231,10 +238,10 @@ class WrapperMixin(object):
             )
         added_code = True
         if force is not None:
-            out.extend(force)
+            out.extend([UserCode(line) for line in force])
         elif name in self.splicer_stack[-1]:
             code = self.splicer_stack[-1][name]
-            out.extend(code)
+            out.extend([UserCode(line) for line in code])
         elif default is not None:
             out.extend(default)
         else:
@@ -382,6 +389,16 @@ class WrapperMixin(object):
         for line in lines:
             if isinstance(line, int):
                 self.indent += int(line)
+            elif isinstance(line, UserCode):
+                # User code is copied unchanged at the current indent.
+                for subline in line.split("\n"):
+                    if len(subline) == 0:
+                        fp.write("\n")
+                    elif subline[0] == "#":
+                        # preprocessing directives work better in column 1
+                        fp.write(subline + "\n")
+                    else:
+                        fp.write(spaces * self.indent + subline + "\n")
             else:
                 for subline in line.split("\n"):
                     if len(subline) == 0:
